@@ -17,6 +17,8 @@ def run(tier, seed, work):
           ("MC_HandoverLive.tla", "MC_HandoverLive_quick.cfg" if quick else "MC_HandoverLive_thorough.cfg")]
     per, depth, nj = (3, 25, 6) if quick else (12, 40, 8)
     js = hc.jobs("c06", seed, per, depth, nj) + hc.jobs("c06", seed + 3, per, depth, nj, mode="burst") + hc.jobs("c06", seed + 5, per, depth, max(2, nj // 2), mode="mutations")
-    groups = [("Trace_Handover.tla", "Trace_Handover_C06.cfg", js)]
-    return verif.run_stateful_check("C06", tier, seed, work, mc_list=mc, groups=groups, key_fn=hc.key,
+    # "never dropped" spans restarts from an exported state: the hand-over queues and the block-hash cursor must survive export / import
+    rj = [("c06reimp_%d" % j, ["reimport", "-n", 2 if quick else 12, "-depth", 30, "-seed", seed * 1000 + 340 + j, "-mode", "bridge"]) for j in range(4 if quick else 8)]
+    groups = [("Trace_Handover.tla", "Trace_Handover_C06.cfg", js), ("Trace_Bridge.tla", "Trace_Bridge_C06.cfg", rj)]
+    return verif.run_stateful_check("C06", tier, seed, work, mc_list=mc, groups=groups, key_fn=lambda ev: hc.key(ev) if ev.get('ev') in ('process', 'prepare', 'finalize', 'exec') else 'c06/%s' % ev.get('ev'),
                                     level="model_checking", assumptions=hc.ASSUME, rule=RULE)
